@@ -3159,7 +3159,7 @@ class EntityFixup(MutableMapping[str, str]):
         used_indexes: set[int] = set()
         extra_vals: list[FixupValue] = []
         for fix in fixup:
-            if fix.id not in used_indexes:
+            if fix.id > 0 and fix.id not in used_indexes:
                 used_indexes.add(fix.id)
                 self._fixup[intern(fix.var.casefold())] = fix
             else:
